@@ -11,6 +11,8 @@ def run(tier):
     progs = en.curated(names=names)
     progs += en.curated(names=["deep3", "lite", "headless", "inject", "plannest"], verbose_log=True)
     progs += en.curated(names=["deep3", "lite"], manual=True)
+    # selectable regions below utilitarian / random parents (and the reverse): the resolution reports of different kinds interleave
+    progs += [en.Prog("selinutil", "C(U(l,S(l,l)),l)"), en.Prog("selinrand", "C(N(S(l,l),l),l)"), en.Prog("utilinsel", "C(S(U(l,l),N(l,l)),l)")]
     classes = en.cls("REQ", "GUARD", "CONSUME", "STATUS", "PLANRESULT", "SELECT", "RNG")
     args = ["--tier", tier, "--dev", "2" if thorough else "1", "--batch", "1", "--classes", str(classes),
             "--dev-immediate", "1", "--imm-reduced", "1", "--deadline", str(en.TD if thorough else 150)]
